@@ -32,7 +32,7 @@ def _snapshot(order, market, strategy, tx=None):
         persistence=getattr(order.order_type, "persistence_type", None), price=getattr(order.order_type, "price", None),
         complete=order.complete, violation_msg=None,
         trade_status=order.trade.status, trade_log=list(order.trade.status_log), trade_orders=list(order.trade.orders),
-        in_blotter=order.id in b, blotter_ids=sorted(b._orders.keys()), live=[id(o) for o in b._live_orders],
+        in_blotter=order.id in b, blotter_ids=sorted(b._orders.keys()), live=[id(o) for o in b._live_orders], views=lc.views_sig(b),
         rc_trades=list(rc.trades), rc_live=list(rc.live_trades), rc_placed=rc.datetime_last_placed, rc_reset=rc.datetime_last_reset, rc_invested=rc.invested,
     )
 
@@ -71,6 +71,23 @@ def h02a(c, mode="sim"):
             c.assume(c.And(order.order_type.size >= 2, order.order_type.size <= 100))  # an order below the account minimum could not have been placed
         else:
             order = lc.live_resting(fl, market, strategy, client, 100, 5.0)
+        if op in ("place", "replace"):
+            strategy.max_market_exposure = c.choose("max_market_exposure", [None, 1000])
+        # ---- an accepted request of another kind may still be in flight for the order (sent, not yet executed)
+        outstanding = None
+        if op != "place" and src in ("none", "market-not-open", "exposure", "txn-limit", "custom-control"):
+            outstanding = c.choose("outstanding_request", [None, "cancel", "update", "replace"])
+            if outstanding == "cancel":
+                market.cancel_order(order, 1.0, force=True)
+            elif outstanding == "update":
+                market.update_order(order, "PERSIST", force=True)
+            elif outstanding == "replace":
+                market.replace_order(order, 2.5, force=True)
+            if outstanding:
+                c.ob("outstanding-request-sent", len(sent) == 1)
+                sent.clear()
+                c.cover("second-request-while-in-flight")
+        c.tag("outstanding", outstanding)
         # ---- make the chosen refusal source fire
         if src == "market-not-open":
             bk.status = "SUSPENDED"
@@ -111,6 +128,8 @@ def h02a(c, mode="sim"):
             applies = False
         if src in ("market-not-open", "no-market-book", "exposure", "strategy-validate", "invalid-order", "txn-limit", "custom-control", "stream-down") and force:
             applies = False
+        if outstanding:
+            applies = True  # one operation in flight: the order's own guard refuses, with or without controls
         # (a request made through another client's transaction is refused whatever `force` says: force skips the controls only)
         before = _snapshot(order, market, strategy)
         raised = None
@@ -153,7 +172,7 @@ def h02a(c, mode="sim"):
             if op == "place":
                 c.ob("refused-new-order.violation", order.status == S.VIOLATION)
                 c.ob("refused-new-order.not-in-blotter", not after["in_blotter"])
-                for k in ("blotter_ids", "live", "rc_trades", "rc_live", "rc_placed", "rc_reset", "rc_invested", "trade_status", "trade_log"):
+                for k in ("blotter_ids", "live", "views", "rc_trades", "rc_live", "rc_placed", "rc_reset", "rc_invested", "trade_status", "trade_log"):
                     c.ob("refused-new-order.%s-unchanged" % k, after[k] == before[k])
             else:
                 for k in before:
@@ -163,6 +182,7 @@ def h02a(c, mode="sim"):
             kind = {"place": OrderPackageType.PLACE, "cancel": OrderPackageType.CANCEL, "update": OrderPackageType.UPDATE, "replace": OrderPackageType.REPLACE}[op]
             c.ob("accepted.sent-exactly-once", len(sent) == 1 and sent[0].package_type == kind and [o for o in sent[0]._orders] == [order])
             c.ob("accepted.in-flight-status", order.status == lc.TRANSIENT[kind])
+            lc.blotter_coherence(c, market, list(market.blotter), tag="accepted.blotter")
 
 
 def h02a_betdaq(c):
@@ -360,8 +380,8 @@ def h02c(c):
 
 OUT = ["Betdaq: market-status validation is not implemented by flumine (marked todo) and is not a refusal source in H02a-betdaq", "N > 3 (thorough 4) requests per transaction combined with real objects: composition of H02b and H02c is an argument, not a query"]
 HARNESSES = [
-    Harness("H02a-sim", h02a, quick=dict(mode="sim"), pattern="P2 inductive step", requires=["refused", "accepted"], outside=OUT),
-    Harness("H02a-live", h02a, quick=dict(mode="live"), pattern="P2 inductive step", requires=["refused", "accepted"], outside=OUT),
+    Harness("H02a-sim", h02a, quick=dict(mode="sim"), pattern="P2 inductive step", requires=["refused", "accepted", "second-request-while-in-flight"], outside=OUT),
+    Harness("H02a-live", h02a, quick=dict(mode="live"), pattern="P2 inductive step", requires=["refused", "accepted", "second-request-while-in-flight"], outside=OUT),
     Harness("H02a-betdaq", h02a_betdaq, pattern="P2 inductive step", requires=["refused", "accepted"], outside=OUT, selfcheck=False),
     Harness("H02b", h02b, quick=dict(N=3), thorough=dict(N=4), pattern="P3 bounded history", requires=["batched", "explicit-execute", "several-packages", "rejected-inside-batch"], outside=OUT,
             max_paths=(300000, 3000000), wall_s=(300, 3000)),
